@@ -520,7 +520,7 @@ func c12Mutate(t *rapid.T, body []byte, donor []byte) ([]byte, []string) {
 	var kinds []string
 	n := rapid.IntRange(1, 4).Draw(t, "nmut")
 	for i := 0; i < n && len(b) > 0; i++ {
-		k := rapid.SampledFrom([]string{"truncate", "flip", "byte", "pkglen", "pkglen", "selfname", "splice", "swapop", "dup", "insert", "nest", "bufnest", "bufnest", "fieldconn", "extop"}).Draw(t, "mutk")
+		k := rapid.SampledFrom([]string{"truncate", "flip", "byte", "pkglen", "pkglen", "selfname", "splice", "swapop", "dup", "insert", "nest", "bufnest", "bufnest", "fieldconn", "extop", "selfpath", "selfpath"}).Draw(t, "mutk")
 		pos := rapid.IntRange(0, len(b)-1).Draw(t, "pos")
 		switch k {
 		case "truncate":
@@ -583,6 +583,83 @@ func c12Mutate(t *rapid.T, body []byte, donor []byte) ([]byte, []string) {
 					break
 				}
 			}
+		case "selfpath":
+			// a named object whose path leads through itself or through the object that
+			// follows it: Name(A.B.A) Device(B){...}, Device(\A.A), Scope(^^X) cut by its own
+			// length ... S1/S2 are names that already occur in the table when there are any
+			s1, s2 := []byte("AAAA"), []byte("BBBB")
+			found := 0
+			for j := pos; j+4 <= len(b) && found < 2; j++ {
+				if c12IsSeg(b[j:j+4]) && b[j] != '0' {
+					if found == 0 {
+						s1 = append([]byte(nil), b[j:j+4]...)
+					} else {
+						s2 = append([]byte(nil), b[j:j+4]...)
+					}
+					found++
+					j += 3
+				}
+			}
+			var ins []byte
+			path := func(root bool, segs ...[]byte) []byte {
+				var p []byte
+				if root {
+					p = append(p, '\\')
+				}
+				switch len(segs) {
+				case 1:
+				case 2:
+					p = append(p, 0x2e)
+				default:
+					p = append(p, 0x2f, byte(len(segs)))
+				}
+				for _, sg := range segs {
+					p = append(p, sg...)
+				}
+				return p
+			}
+			root := rapid.Bool().Draw(t, "sproot")
+			var name []byte
+			switch rapid.IntRange(0, 4).Draw(t, "spshape") {
+			case 0:
+				name = path(root, s1, s2, s1)
+			case 1:
+				name = path(root, s1, s1)
+			case 2:
+				name = path(root, s1, s2, s2, s1)
+			case 3:
+				name = path(root, s2, s1, s2)
+			default:
+				name = append([]byte{'^', '^'}, s1...)
+			}
+			follower := func(nm []byte) []byte {
+				body := append([]byte(nil), nm...)
+				switch rapid.IntRange(0, 3).Draw(t, "spfollow") {
+				case 0: // Device(nm) {}
+					return append([]byte{0x5b, 0x82, byte(1 + len(body))}, body...)
+				case 1: // Scope(nm) {}
+					return append([]byte{0x10, byte(1 + len(body))}, body...)
+				case 2: // Method(nm, 0) {}
+					return append(append([]byte{0x14, byte(2 + len(body))}, body...), 0)
+				default: // Processor(nm, 0, 0, 0) {}
+					return append(append([]byte{0x5b, 0x83, byte(7 + len(body))}, body...), 0, 0, 0, 0, 0, 0)
+				}
+			}
+			switch rapid.IntRange(0, 3).Draw(t, "spfirst") {
+			case 0: // Name(path) without a value of its own: takes the follower as its value
+				ins = append([]byte{0x08}, name...)
+			case 1: // Device(path) {}
+				ins = append([]byte{0x5b, 0x82, byte(1 + len(name))}, name...)
+			case 2: // Scope(path) {}
+				ins = append([]byte{0x10, byte(1 + len(name))}, name...)
+			default: // Name(path, 0)
+				ins = append(append([]byte{0x08}, name...), 0x00)
+			}
+			ins = append(ins, follower(s2)...)
+			if rapid.Bool().Draw(t, "spsecond") {
+				ins = append(ins, follower(s1)...)
+			}
+			b = append(b[:pos], append(ins, b[pos:]...)...)
 		case "extop":
 			// an extended opcode (0x5b xx) with an arbitrary second byte - undefined ones and the
 			// codes the parser uses internally included - in place of the next extended opcode,
